@@ -15,7 +15,8 @@ ID = "C16"
 REQUIRED_THEOREMS = ["elems_strip", "findAll_strip", "findFirst_strip", "matches_setNs", "findAll_spelling",
                      "history_independent", "after_any_sequence", "stripRendering", "load_ignores_comments",
                      "findAll_inNs", "findDescendant_inNs", "nsRendering", "load_ignores_namespace_convention"]
-RULE = ("requests `loadseq <root> ((prefix nsmap tree) ...)`: the loads are performed one after the other in one process; "
+RULE = ("requests `loadseq <root> ((prefix nsmap tree) ...)`: the loads are performed one after the other in one process "
+        "(half of the sequences through the file-name entry points, all documents of a sequence at one path); "
         "each document is rendered by an independent writer in the spellings {prefix xtce, prefix of another name, default "
         "namespace, no namespace (with and without an unrelated xsi declaration)} x comments in every list-like element x "
         "pretty-printing whitespace or none, and is loaded after 0..5 prior loads drawn from other renderings and malformed "
@@ -125,9 +126,14 @@ def impl(line):
     t = parse_sx(line)
     root = uS(t[1])
     outs = []
-    for pfx, nsmap, tree in t[2]:
-        sub = f"load {pfx} {sx(nsmap)} {t[1]} {sx(tree)}"
-        outs.append(xmlops.impl_load(sub))
+    # half of the sequences go through the file-name entry points (`load_xml(path)` / `from_xtce(path)`), every document
+    # of the sequence written to the SAME path before it is loaded: an earlier load must not influence a later one
+    import zlib, tempfile, os
+    with tempfile.TemporaryDirectory() as td:
+        path = os.path.join(td, "definition.xml") if zlib.crc32(line.encode()) % 2 == 0 else None
+        for pfx, nsmap, tree in t[2]:
+            sub = f"load {pfx} {sx(nsmap)} {t[1]} {sx(tree)}"
+            outs.append(xmlops.impl_load(sub, path=path))
     return "seq " + " | ".join(outs)
 
 
